@@ -181,7 +181,8 @@ impl Prop for C31 {
     fn check(&self, c: &Case) -> Verdict {
         let v = self.check_inner(c);
         if let crate::engine::Outcome::Fail { msg, region: None } = &v.outcome {
-            if c.c.hsl_out_of_range && !msg.starts_with("panic") {
+            // (whiteness and blackness are computed from the clamped rgb channels and stay in range even there)
+            if c.c.hsl_out_of_range && !msg.starts_with("panic") && !msg.starts_with("whiteness(") && !msg.starts_with("blackness(") {
                 return Verdict::known("C31-hsl-saturation-lightness-not-clamped", msg.clone());
             }
         }
